@@ -55,11 +55,25 @@ def post_class(ops: list) -> str:
     return ("ticks" if i > 0 else "first") + ":" + "".join(ops[i + 1:])
 
 
+def replay(ctx: Ctx, rec: dict) -> None:
+    """./check C10 --replay F: re-execute the recorded script on the real code and let TLC judge it again."""
+    d = rec["detail"]
+    sc = d["script"]
+    world = W.PipeWorld() if sc["tr"] == "pipe" else W.HttpWorld()
+    res = L.run_script(world, sc, d["x"], d["variant"])
+    ctx.case(["replay", table_key(sc)], sample={"script": sc, "real_history": compact(res["hist"])})
+    for _, clauses in U.judge(ctx, "wire", "StreamLifeClauses", [{"case": sc, "obs": {"hist": res["hist"], "expect": res["hist"]}}]):
+        for cl in clauses:
+            ctx.violation(cl, rec["sig"], {**d, "real_history": compact(res["hist"]), "notes": res["notes"][:4]})
+
+
 def run(ctx: Ctx) -> None:
     warnings.filterwarnings("ignore")
     wd = ctx.wd.stage("wire")
     sany(wd, "StreamLifeClauses")
     sany(wd, "StreamLife")
+    if getattr(ctx, "replay_record", None):
+        return replay(ctx, ctx.replay_record)
     quick = ctx.quick
     max_steps, max_ticks = (2, 2) if quick else (4, 4)
 
@@ -74,7 +88,7 @@ def run(ctx: Ctx) -> None:
         cases[key] = j
     ctx.exhaustive = True
     # the design as found (HttpStreamSession.cancel leaves preloaded batches / running iterators alone): documentation
-    found = model_check(ctx, wd, 2, 2, False, "StreamLife as found (FixCancelRefuses=FALSE)", False)
+    found = model_check(ctx, wd, 1, 1, False, "StreamLife as found (FixCancelRefuses=FALSE)", False)
     ctx.extra["design_as_found_violates"] = found.violated
     ctx.extra["design_as_found_counterexample"] = [a for a, _ in found.counterexample]
 
@@ -93,20 +107,17 @@ def run(ctx: Ctx) -> None:
     skipped = 0
     for key in sorted(cases):
         sc, expect = cases[key]["script"], cases[key]["hist"]
-        # thorough: the model is exhaustive at (4, 4); every script with <= 3 steps and <= 3 leading ticks is replayed
-        # (twice, with different concrete variants), the longest ones are replayed as a seeded 1-in-4 sample
+        # thorough: the model is exhaustive at (4, 4); every script with <= 3 steps and <= 3 leading ticks is replayed,
+        # the longest ones are replayed as a seeded 1-in-4 sample (concrete variants are drawn per script)
         big = len(sc["steps"]) > 3 or sc["ops"][:4] == ["t"] * 4
-        if big and rng.randrange(4):
+        if (big and rng.randrange(4)) or (quick and rng.randrange(2)):     # quick: a seeded half of the (2, 2) scripts
             skipped += 1
             continue
-        for v in range(1 if (quick or big) else 2):
+        for v in range(1):
             xs += 1
             x = 1 + (xs % 1900)
-            variant = {"rows": [rng.choice([1, 1, 3, 0]) for _ in range(3)] if v or not quick else [1, 3, 0],
-                       "md": [rng.random() < 0.3 for _ in range(3)], "in_rows": rng.choice([1, 2]),
-                       "pv": rng.randrange(8) if v == 0 else xs}
-            if sc["kind"] == "exch" and sc["pert"] == "exact" and v > 0:
-                variant["in_rows"] = 3 - variant["in_rows"]
+            variant = {"rows": [rng.choice([1, 1, 3, 0]) for _ in range(3)], "md": [rng.random() < 0.3 for _ in range(3)],
+                       "in_rows": rng.choice([1, 2]), "pv": xs}
             res = L.run_script(worlds[sc["tr"]], sc, x, variant)
             if res["hung"]:
                 res2 = L.run_script(worlds[sc["tr"]], sc, x + 2000, variant, timeout=15.0)
